@@ -84,6 +84,16 @@ def rule_store_after_validate(ctx):
                                 "far outside the range can wrap into it and is stored without a diagnostic" % (pt, at))
             if vargs:
                 stored = _strip_casts(f, x["a"][1])
+                # the validated value may reach the store through a local with a single definition
+                sn = f.nodes.get(x["a"][1])
+                while sn is not None and sn["k"] == "cast":
+                    sn = f.nodes.get(sn["a"][0])
+                if stored not in vargs and sn is not None and sn["k"] == "ref" and sn.get("d") == "lv":
+                    from ..flow import ReachingDefs as _RD2, var_id as _vid2
+                    _rd = _RD2(f, db)
+                    ds = _rd.at(x["i"], _vid2(sn))
+                    if len(ds) == 1 and _rd.rhs_of(ds[0]) is not None and _strip_casts(f, _rd.rhs_of(ds[0])) in vargs:
+                        stored = _strip_casts(f, _rd.rhs_of(ds[0]))
                 r.check(stored in vargs, inst + "/stores-what-was-validated", db.loc(f, x),
                         "validate() was applied to `%s` but `%s` is stored" % (", ".join(vargs), stored))
     r.floor(7)
@@ -600,8 +610,20 @@ def rule_number_whole_and_fits(ctx):
     fs = [f for f in _readers(db) if f.qn.split("::")[-1].startswith("read_number")]
     r.require(len(fs) >= 2, "only %d read_number instantiations" % len(fs))
     for f in fs:
-        sts = [x for x in f.all_nodes() if x["k"] == "asg" and (f.nodes.get(x["a"][0]) or {}).get("k") == "mem" and f.nodes[x["a"][0]]["n"] == "m_val"
-               and expr_str(f, x["a"][1]).replace("(int)", "").replace("(unsigned int)", "").strip("()") == "val"]
+        def _is_val(x):
+            t = expr_str(f, x["a"][1]).replace("(int)", "").replace("(unsigned int)", "").strip("()")
+            if t == "val":
+                return True
+            sn = f.nodes.get(x["a"][1])
+            while sn is not None and sn["k"] == "cast":
+                sn = f.nodes.get(sn["a"][0])
+            if sn is not None and sn["k"] == "ref" and sn.get("d") == "lv":
+                from ..flow import ReachingDefs as _RD3, var_id as _vid3
+                _rd = _RD3(f, db)
+                ds = _rd.at(x["i"], _vid3(sn))
+                return len(ds) == 1 and _rd.rhs_of(ds[0]) is not None and _strip_casts(f, _rd.rhs_of(ds[0])) == "val"
+            return False
+        sts = [x for x in f.all_nodes() if x["k"] == "asg" and (f.nodes.get(x["a"][0]) or {}).get("k") == "mem" and f.nodes[x["a"][0]]["n"] == "m_val" and _is_val(x)]
         r.require(len(sts) == 1, "%s: %d stores of the strtol value" % (f.qn, len(sts)))
         x = sts[0]
         cs = [(expr_str(f, cn), pol) for cn, pol in f.guard_conds(f.nblock[x["i"]]) if cn is not None]
